@@ -4,6 +4,7 @@
 //   split <hexcmd>                 -> ok <hexarg>* | err
 //   parse <hexarg>*                -> I <list> | S <list> | D <hex> | U <list> | T <hex>    | refused
 //   defs <hex>                     -> <hex>
+//   simplify <hex>                 -> <hex>            (Path::simplifyPath)
 //   incs <hexbase> <hexpath>*      -> <list>
 //   json <hexjson>                 -> rc <0|1> errs <n> { || P <hexpath> id <n> | I .. | S .. | D .. | U .. | T .. }*
 #include "common.h"
@@ -81,6 +82,8 @@ int main() {
             FileSettings fs{"a.c", Standards::Language::None, 0};
             Importer::fsSetDefines(fs, f.size() > 1 ? unhex(f[1]) : std::string());
             std::cout << hex(fs.defines) << std::endl;
+        } else if (f[0] == "simplify") {
+            std::cout << hex(Path::simplifyPath(f.size() > 1 ? unhex(f[1]) : std::string())) << std::endl;
         } else if (f[0] == "incs" && f.size() >= 2) {
             FileSettings fs{"a.c", Standards::Language::None, 0};
             std::list<std::string> in;
